@@ -64,6 +64,26 @@ namespace vt
         friend bool operator<=(const TT& a, const TT& b) { return a.id <= b.id; }
         friend bool operator>=(const TT& a, const TT& b) { return a.id >= b.id; }
     };
+    // An argument type and an alternative that is assignable from it without throwing but whose construction from it throws.
+    struct Arg { uint64_t id; };
+    struct NA
+    {
+        uint64_t id;
+        explicit NA(uint64_t v) : id(v) { sim::fault_point(sim::FK_THROW); sim::registry().on_construct(this, 7, id, false); }
+        NA(const Arg& a) : id(a.id) { sim::fault_point(sim::FK_THROW); sim::registry().on_construct(this, 7, id, false); }
+        NA(const NA& o) : id(o.id) { sim::fault_point(sim::FK_THROW); sim::registry().on_construct(this, 7, id, false); }
+        NA(NA&& o) noexcept : id(o.id) { sim::registry().on_construct(this, 7, id, false); }
+        NA& operator=(const Arg& a) noexcept { id = a.id; return *this; }
+        NA& operator=(const NA&) = default;
+        NA& operator=(NA&&) = default;
+        ~NA() { sim::registry().on_destroy(this, 7); }
+        friend bool operator==(const NA& a, const NA& b) { return a.id == b.id; }
+        friend bool operator!=(const NA& a, const NA& b) { return a.id != b.id; }
+        friend bool operator<(const NA& a, const NA& b) { return a.id < b.id; }
+        friend bool operator>(const NA& a, const NA& b) { return a.id > b.id; }
+        friend bool operator<=(const NA& a, const NA& b) { return a.id <= b.id; }
+        friend bool operator>=(const NA& a, const NA& b) { return a.id >= b.id; }
+    };
     static_assert(std::is_trivially_destructible<TT>::value, "TT must be trivially destructible");
     static_assert(std::is_trivially_copy_assignable<DA>::value && !std::is_trivially_copy_constructible<DA>::value, "DA: trivial assignment, non-trivial copy");
 }
@@ -106,6 +126,8 @@ namespace
 
     // a second variant type for xget over closure wrappers
     using XV = xtl::variant<xtl::xclosure_wrapper<int&>, xtl::xclosure_wrapper<const NC&>, NC>;
+    // both closure kinds of one type in the same variant
+    using XV2 = xtl::variant<xtl::xclosure_wrapper<int&>, xtl::xclosure_wrapper<const int&>, int>;
 
     // and one with more than 32 alternatives (the default: arm of the switch dispatcher)
     template <int I> struct Tag { int v; bool operator==(const Tag& o) const { return v == o.v; } bool operator<(const Tag& o) const { return v < o.v; } };
@@ -630,8 +652,8 @@ namespace
         bool xv_live_nc = false;
         void op_xget(const Step& st)
         {
-            static const char* const vn[] = {"int_ref", "const_nc_ref", "nc_value"};
-            unsigned v = static_cast<unsigned>(st.d % 3);
+            static const char* const vn[] = {"int_ref", "const_nc_ref", "nc_value", "both_closure_kinds", "swap_same_closure_alternative"};
+            unsigned v = static_cast<unsigned>(st.d % 5);
             Scope sc(*this, st, "xget", vn[v]);
             Suspend s;
             {
@@ -654,6 +676,34 @@ namespace
                     if (&r != xnc) viol("model", "xget", "xget<const NC&> does not designate the referent");
                     if (registry().copies != copies) viol("model", "xget", "building or reading a reference closure copied the referent");
                     if (xv.index() != 1) viol("model", "xget", "wrong alternative for a const closure");
+                }
+                else if (v == 3)
+                {
+                    // a variant that lists xclosure_wrapper<int&> and xclosure_wrapper<const int&>: each xget form reaches its own alternative
+                    int other = 5;
+                    XV2 a(xtl::closure(xint)), b(xtl::const_closure(other));
+                    if (a.index() != 0 || b.index() != 1) viol("model", "xget", "closures of an int lvalue and of a const int lvalue select the wrong alternatives");
+                    if (&xtl::xget<int&>(a) != &xint) viol("model", "xget", "xget<int&> does not designate the referent");
+                    bool threw = false;
+                    try { if (&xtl::xget<const int&>(b) != &other) viol("model", "xget", "xget<const int&> on the const closure designates another object"); }
+                    catch (const xtl::bad_variant_access&) { threw = true; }
+                    if (threw) viol("model", "xget", "xget<const int&> threw bad_variant_access although the variant holds xclosure_wrapper<const int&>");
+                    const XV2& cb = b;
+                    if (&xtl::xget<const int&>(cb) != &other) viol("model", "xget", "xget<const int&> on a const variant designates another object");
+                    threw = false;
+                    try { (void)xtl::xget<int&>(b); } catch (const xtl::bad_variant_access&) { threw = true; }
+                    if (!threw) viol("model", "xget", "xget<int&> did not throw although the variant holds the const closure");
+                }
+                else if (v == 4)
+                {
+                    // two variants holding the same closure alternative: swap is the alternative's own swap, i.e. the referents' values are exchanged
+                    int x = static_cast<int>(st.a % 1000), y = static_cast<int>(st.b % 1000) + 1000;
+                    int x0 = x, y0 = y;
+                    using SV = xtl::variant<xtl::xclosure_wrapper<int&>, int>;
+                    SV a(xtl::closure(x)), b(xtl::closure(y));
+                    if (st.c & 1) a.swap(b); else { using std::swap; swap(a, b); }
+                    if (x != y0 || y != x0) viol("model", "xget", "swapping two variants that hold xclosure_wrapper<int&> did not exchange the referents' values (the alternative's own swap was not used)");
+                    if (&xtl::xget<int&>(a) != &x || &xtl::xget<int&>(b) != &y) viol("model", "xget", "swap rebound the closures");
                 }
                 else
                 {
@@ -792,6 +842,18 @@ namespace
         static const char* yname() { return "TT"; }
     };
 
+    struct SetConverting
+    {
+        using X = NA; using Y = DB;
+        static constexpr bool tracked = true;
+        static X mkx(uint64_t id) { return X(id); }
+        static uint64_t idx(const X& x) { return x.id; }
+        static const char* xname() { return "NA"; }
+        static const char* yname() { return "DB"; }
+    };
+    template <class S> struct reg_tag_x { static constexpr int value = 5; };
+    template <> struct reg_tag_x<SetConverting> { static constexpr int value = 7; };
+
     template <class S>
     struct SmallWorld
     {
@@ -880,7 +942,7 @@ namespace
                 if (S::tracked)
                 {
                     const void* p = m.index == 1 ? static_cast<const void*>(xtl::get_if<1>(&v)) : (m.index == 2 ? static_cast<const void*>(xtl::get_if<2>(&v)) : nullptr);
-                    if (p && !registry().is_live(p, m.index == 1 ? 5 : 6)) viol("lifetime", "contained-not-live", who + "the contained object is not a live object");
+                    if (p && !registry().is_live(p, m.index == 1 ? reg_tag_x<S>::value : 6)) viol("lifetime", "contained-not-live", who + "the contained object is not a live object");
                 }
                 std::pair<size_t, uint64_t> r = xtl::visit(Vis(), v);
                 if (r.first != m.index || r.second != m.id) viol("invariant", "visit", who + "visit reaches alternative " + std::to_string(r.first));
@@ -1004,6 +1066,25 @@ namespace
             ++run.changing;
             check_all();
         }
+        // assignment from a value that converts to alternative 1: assignable without throwing, constructible only with a throw possible
+        void op_arg_assign(const Step& st, std::false_type) { Scope sc(*this, st, "read", "all"); check_all(); }
+        void op_arg_assign(const Step& st, std::true_type)
+        {
+            int t = st.actor % 3;
+            Scope sc(*this, st, "arg_assign", name_of(model[t]) + "_from_Arg");
+            MV pre = model[t];
+            uint64_t id = fresh();
+            MV want; want.index = 1; want.id = id;
+            bool threw = false;
+            Arg a{id};
+            try { slot[t].get() = a; }
+            catch (const Injected&) { threw = true; }
+            if (threw) { settle_after_throw(t, pre, &want); if (model[t].valueless) SIM_PROBE("valueless_by_assignment"); SIM_PROBE("converting_assignment_threw_in_constructor"); }
+            else model[t] = want;
+            ++run.changing;
+            check_all();
+        }
+
         void op_emplace(const Step& st)
         {
             int t = st.actor % 3;
@@ -1095,6 +1176,7 @@ namespace
             case OP_emplace_index: case OP_emplace_type: op_emplace(st); break;
             case OP_swap: op_swap(st); break;
             case OP_relop: op_relop(st); break;
+            case OP_visit1: case OP_visit2: case OP_hash: op_arg_assign(st, std::is_same<S, SetConverting>()); break;
             default: { Scope sc(*this, st, "read", "all"); check_all(); } break;
             }
         }
@@ -1139,6 +1221,14 @@ namespace
         }
     }
 
+    void gen_conv(Plan& plan, Rng& cfg, Rng& pr, int tier)
+    {
+        gen(plan, cfg, pr, tier);
+        unsigned pct = plan.params.size() > 1 ? static_cast<unsigned>(plan.params[1]) : 0;
+        for (Step& s : plan.steps)
+            if ((s.op == OP_visit1 || s.op == OP_visit2 || s.op == OP_hash) && pr.below(100) < pct) { s.fkind = FK_THROW; s.fk = pr.below(2); }
+    }
+
     void exec(const Plan& plan, Run& run)
     {
         std::unique_ptr<World> w(new World(run, plan));
@@ -1156,4 +1246,5 @@ namespace
     RegisterCfg reg("int_NC_TC_TM_TM2_string", gen, exec, 6, false);
     RegisterCfg reg_b("int_DA_DB_defaulted_assignment", gen, exec_small<SmallWorld<SetDefaulted>>, 1, false);
     RegisterCfg reg_c("int_double_TT_trivially_destructible", gen, exec_small<SmallWorld<SetTrivial>>, 1, false);
+    RegisterCfg reg_d("int_NA_DB_converting_assignment", gen_conv, exec_small<SmallWorld<SetConverting>>, 1, false);
 }
